@@ -7,7 +7,9 @@ consume / fixed-name bits, dots count, number of path elements, '*', brackets,
 ',' alternatives, flags '', 'm', 'p', 'mp') being a symbolic selector decided
 by z3 feasibility (symx); on every path the real `__repr__` is printed, parsed
 back with the real `rrel.parse`, and the canonical forms (structure + flags)
-must be equal.  Finite space, enumerated exhaustively up to the depth bound.
+must be equal, and both trees must evaluate alike (rrel.find_object_with_path:
+same object through the same path) for 12 (start object, name) pairs on a
+sample model.  Finite space, enumerated exhaustively up to the depth bound.
 """
 import z3
 
@@ -195,6 +197,37 @@ class memoised_parser_python:
         sys.modules['arpeggio'] = self.real
 
 
+EVAL_GRAMMAR = """
+T: 'T' name=ID ('{' ('a' a+=T | 'b' b1+=T)* '}')?;
+"""
+EVAL_MODEL = "T r { a T x { a T y b T n } a T n { a T x } b T y { a T x { b T n } } }"
+EVAL_NAMES = ['x', 'n', 'x.y', 'y.x.n']
+_EVAL = []
+
+
+def eval_points():
+    """(start object, name) pairs on which an expression and its re-parsed
+    printed form must evaluate alike"""
+    if not _EVAL:
+        from textx import metamodel_from_str, get_children
+        m = metamodel_from_str(EVAL_GRAMMAR).model_from_str(EVAL_MODEL)
+        objs = get_children(lambda o: True, m)
+        starts = [m, objs[2], objs[-1]]
+        _EVAL.append(([(o, nm) for o in starts for nm in EVAL_NAMES], m))
+    return _EVAL[0][0]
+
+
+def evaluate(tree, obj, name):
+    import textx.scoping.rrel as R
+    try:
+        res = R.find_object_with_path(obj, name, tree)
+    except Exception as e:  # noqa
+        return ('raises', type(e).__name__)
+    if type(res) is tuple:
+        return ('found', id(res[0]), tuple(id(x) for x in res[1]))
+    return ('none' if res is None else 'other', repr(res)[:40])
+
+
 def roundtrip(tree):
     import textx.scoping.rrel as R
     s = str(tree)
@@ -205,6 +238,12 @@ def roundtrip(tree):
         return s, 'printed form does not parse: %s: %s' % (type(e).__name__, str(e)[:80])
     if canon(t2) != canon(tree):
         return s, 'reparsed %r != original %r' % (canon(t2), canon(tree))
+    # equivalent also means: evaluates alike (same object through the same path)
+    for obj, name in eval_points():
+        a, b = evaluate(tree, obj, name), evaluate(t2, obj, name)
+        if a != b:
+            return s, 'evaluates differently from its re-parsed printed form: lookup of %r from %r: %s vs %s' % (
+                name, getattr(obj, 'name', None), a[0], b[0])
     return s, None
 
 
